@@ -33,6 +33,7 @@ def check(prog: Program, run: Run) -> None:
     fr = isotp.Frame(prog)
     isotp.c12_frame_table(fr, run)
     isotp.c12_state_indexing(prog, fr, run)
+    isotp.state_writers(prog, fr, run, "C12.R2")
     isotp.c12_id_tables(prog, run)
     isotp.c12_log_regex(prog, run)
     isotp.c12_flow_control(prog, run)
